@@ -9,6 +9,17 @@ ROOT = os.path.dirname(os.path.dirname(os.path.abspath(__file__)))
 
 # id -> (level, technique, text, note, design_ref)
 CHECKS = {
+    "C12": (
+        "exploration",
+        "deterministic simulation with a microsecond clock: consumer fetches placed at expiry -1 s .. +1 s including exactly at it; saturated workers with prefetched messages; DEAD-category retrieval",
+        "Probe mode places a NORMAL consumer's first fetch at E + d (d from -1 s to +1 s, including 0 and +-1 us; step cost 0 "
+        "makes the exact instant reachable in-memory) for immediate and delayed messages and then retrieves an expired message "
+        "through a DEAD-category consumer, comparing key/payload/parameters; worker mode runs 2-6 jobs (plain, long, delayed, "
+        "retried, recurring; ttl 1-10 s or none) on a worker with tasks_limit 1-2 so that prefetched messages wait. No actor start "
+        "for a delivery returned after E, expired messages end in dead, live messages are dead only after a recorded nack.",
+        "Samples scenarios. Network brokers: 'taken at or before E' is judged with an allowance of a few network latencies.",
+        "DESIGN.md section 8 C12",
+    ),
     "C06": (
         "exploration",
         "deterministic simulation on a discrete-event clock: 4-20 consecutive iterations of a periodic job (periods 1 s..1 h) in virtual time with seeded duration/outcome profiles; cadence oracle over the recorded reschedule calls",
